@@ -326,7 +326,9 @@ func (c *Ctx) define(hint, sort, term string) string {
 	if c.inContract > 0 {
 		return term // terms inside contract expressions may mention bound variables: never lift them out
 	}
-	if len(term) < 40 && !strings.Contains(term, "(ite ") {
+	// small terms are inlined; "small" is measured in operators, not characters, so that the shape of the verification
+	// conditions does not depend on how long the program's identifiers are (rename stress test)
+	if strings.Count(term, "(") <= 2 && strings.Count(term, " ") <= 4 && !strings.Contains(term, "(ite ") {
 		return term
 	}
 	n := c.freshConst(hint, sort)
